@@ -983,7 +983,11 @@ fn scenarios(prop: &str, thorough: bool) -> Vec<Scen> {
                             if prop == "C11" && !par {
                                 continue;
                             }
-                            for (api, ycols) in [(Api::Single, vec![YCol::Noisy]), (Api::Single, vec![YCol::Off]), (Api::Mrhs, lin_cols.clone()), (Api::Mrhs, vec![YCol::Noisy])] {
+                            // (an identically zero right-hand side - alone, and in the middle of others - has the exact solution 0)
+                            for (api, ycols) in [(Api::Single, vec![YCol::Noisy]), (Api::Single, vec![YCol::Off]), (Api::Mrhs, lin_cols.clone()), (Api::Mrhs, vec![YCol::Noisy]), (Api::Single, vec![YCol::Zero]), (Api::Mrhs, vec![YCol::Noisy, YCol::Zero, YCol::Off])] {
+                                if ycols.contains(&YCol::Zero) && fi > 1 {
+                                    continue;
+                                }
                                 for w in &weights {
                                     for eps in epss {
                                         if !thorough {
@@ -1316,6 +1320,19 @@ fn scenarios(prop: &str, thorough: bool) -> Vec<Scen> {
             sels.push(vec![YCol::ScaleTiny, YCol::Noisy, YCol::ScaleHuge]);
             sels.push((0..33).map(|i| pool[i % 5].clone()).collect());
             sels.push((0..70).map(|i| pool[(i * 2) % 5].clone()).collect());
+            // more right-hand sides than samples, a user threshold, and decay constants so close that a singular value lies
+            // between machine epsilon and that threshold
+            for f32_ in [false, true] {
+                for par in [false, true] {
+                    for ncols in [9usize, 33] {
+                        let ycols: Vec<YCol> = (0..ncols).map(|i| pool[i % 5].clone()).collect();
+                        let mut s = mk(&Family::Exp2Off, 6, Prov::Hand, f32_, par, Api::Mrhs, ycols, WKind::None, EpsKind::Val(if f32_ { 1e-2 } else { 1e-6 }));
+                        s.alphas = vec![vec![1.0, 3.5], if f32_ { vec![1.0, 1.0001] } else { vec![1.0, 1.00000001] }, vec![2.0, 2.0], vec![0.75, 3.0]];
+                        s.depth = 2;
+                        v.push(s);
+                    }
+                }
+            }
             let fams: Vec<(Family, usize)> = vec![(Family::Exp1Off, 6), (Family::Exp2Off, 8), (Family::OLeary, 7), (Family::GenProd { m: 1, p: 1, inc: default_inc(1, 1) }, 5), (Family::GenProd { m: 3, p: 2, inc: [[true, true, false], [true, false, false], [false, true, false]] }, 8)];
             for (fi, (fam, n)) in fams.iter().enumerate() {
                 for (si, sel) in sels.iter().enumerate() {
